@@ -5,6 +5,7 @@ import (
 	"github.com/brutella/hc/crypto"
 	"github.com/brutella/hc/log"
 	"net"
+	"sync"
 	"time"
 
 	"encoding/binary"
@@ -28,6 +29,9 @@ type Connection struct {
 
 	// Decrypted bytes which were not returned by Read yet
 	decrypted bytes.Buffer
+
+	// Synchronizes encrypted writes
+	writeMutex sync.Mutex
 }
 
 // NewConnection returns a hap connection.
@@ -47,6 +51,11 @@ func NewConnection(connection net.Conn, context Context) *Connection {
 // EncryptedWrite encrypts and writes bytes to the connection.
 // The method returns the number of written bytes and an error when writing failed.
 func (con *Connection) EncryptedWrite(b []byte) (int, error) {
+	// Responses and event notifications are written by different goroutines.
+	// Frames must reach the connection in the order they were encrypted.
+	con.writeMutex.Lock()
+	defer con.writeMutex.Unlock()
+
 	var buffer bytes.Buffer
 	buffer.Write(b)
 	verifYield("write:pre-seal", b)
